@@ -25,6 +25,8 @@ pub enum Entry {
     Mislabeled { signer: usize, label: usize },
     /// genuine signature by k over *different* content
     OtherContent(usize),
+    /// genuine signature by k whose key-id label is a case-respelling of k's id (upper case / mixed case)
+    RespelledLabel(usize, bool),
 }
 
 #[derive(Clone, Debug, Serialize, Deserialize)]
@@ -49,7 +51,8 @@ fn entry(nkeys: usize) -> BoxedStrategy<Entry> {
         1 => k.clone().prop_map(Entry::Resign),
         2 => (k.clone(), any::<u16>()).prop_map(|(k, b)| Entry::BitFlip(k, b)),
         2 => (k.clone(), k.clone()).prop_map(|(signer, label)| Entry::Mislabeled { signer, label }),
-        1 => k.prop_map(Entry::OtherContent),
+        1 => k.clone().prop_map(Entry::OtherContent),
+        1 => (k, any::<bool>()).prop_map(|(k, upper)| Entry::RespelledLabel(k, upper)),
     ]
     .boxed()
 }
@@ -90,6 +93,8 @@ pub struct Built {
     pub block: Metablock,
     pub labels: Vec<usize>,
     pub genuine: Vec<bool>,
+    /// entry carries a case-respelled label (may or may not be attributed to the key; never in addition)
+    pub respelled: Vec<bool>,
 }
 
 pub fn build(spec: &Spec) -> Built {
@@ -100,6 +105,7 @@ pub fn build(spec: &Spec) -> Built {
     let mut sigs: Vec<Signature> = vec![];
     let mut labels = vec![];
     let mut genuine = vec![];
+    let mut respelled = vec![];
     for e in &spec.entries {
         let sign = |k: usize, m: &MetadataWrapper| -> Vec<u8> {
             let sk = private(&spec.keys[k]);
@@ -115,12 +121,20 @@ pub fn build(spec: &Spec) -> Built {
             }
             Entry::Mislabeled { signer, label } => (*label, sign(*signer, &meta), signer == label),
             Entry::OtherContent(k) => (*k, sign(*k, &other_meta), false),
+            Entry::RespelledLabel(k, _) => (*k, sign(*k, &meta), true),
         };
-        sigs.push(make_sig(&key_id_str(&spec.keys[label]), &bytes));
+        let id = key_id_str(&spec.keys[label]);
+        let id = match e {
+            Entry::RespelledLabel(_, true) => id.to_uppercase(),
+            Entry::RespelledLabel(_, false) => id.chars().enumerate().map(|(i, c)| if i % 2 == 0 { c.to_ascii_uppercase() } else { c }).collect(),
+            _ => id,
+        };
+        respelled.push(matches!(e, Entry::RespelledLabel(..)) && id != key_id_str(&spec.keys[label]));
+        sigs.push(make_sig(&id, &bytes));
         labels.push(label);
         genuine.push(ok);
     }
-    Built { block: Metablock { signatures: sigs, metadata: meta }, labels, genuine }
+    Built { block: Metablock { signatures: sigs, metadata: meta }, labels, genuine, respelled }
 }
 
 impl Property for C04 {
@@ -201,10 +215,15 @@ impl Property for C04 {
             if !spec.authorized.contains(&k) {
                 continue;
             }
+            // a respelled label may or may not be attributed to the key: the upper bound counts it (once per key)
             if (0..spec.entries.len()).any(|i| b.labels[i] == k && b.genuine[i]) {
                 good.insert(k);
             }
         }
+        let any_respelled = b.respelled.iter().any(|r| *r);
+        let strict_good: std::collections::BTreeSet<usize> = (0..n)
+            .filter(|k| spec.authorized.contains(k) && (0..spec.entries.len()).any(|i| b.labels[i] == *k && b.genuine[i] && !b.respelled[i]))
+            .collect();
         let mut label_counts = std::collections::BTreeMap::new();
         for l in &b.labels {
             *label_counts.entry(*l).or_insert(0) += 1;
@@ -236,7 +255,9 @@ impl Property for C04 {
                 format!("verify(t={}, authorised={:?}) = Ok with entries {:?}; genuinely signing authorised keys: {:?}", t, spec.authorized, spec.entries, good),
                 "Err: fewer than t distinct authorised keys have a valid signature");
         }
-        if once && enough {
+        let enough_strict = t >= 1 && strict_good.len() as u64 >= t as u64;
+        let once = once && !any_respelled;
+        if once && enough && enough_strict {
             match &res {
                 Err(e) => o.fail("C04/rejects/enough-valid-signatures",
                     format!("verify(t={}, authorised={:?}) = Err({}) with entries {:?}", t, spec.authorized, e, spec.entries),
